@@ -207,7 +207,7 @@ func negotiateFeatures(ctx context.Context, s *Session, first, ws bool, features
 			// informational only and not meant to be negotiated: error.
 			_, negotiated := s.negotiated[start.Name.Space]
 			data, sent = list.cache[start.Name.Space]
-			if !sent || negotiated || data.feature.Negotiate == nil {
+			if !sent || negotiated || data.feature.Negotiate == nil || !s.allowed(data.feature) {
 				// TODO: What should we return here?
 				return mask, rw, stream.PolicyViolation
 			}
@@ -242,6 +242,11 @@ func negotiateFeatures(ctx context.Context, s *Session, first, ws bool, features
 					if _, ok := s.negotiated[v.feature.Name.Space]; ok || v.feature.Negotiate == nil {
 						// If this feature has already been negotiated, or is informational
 						// only with no negotiation, skip it.
+						continue
+					}
+					if !s.allowed(v.feature) {
+						// A feature negotiated earlier from this same list changed the
+						// session state so that this feature may no longer be negotiated.
 						continue
 					}
 
@@ -288,6 +293,12 @@ func negotiateFeatures(ctx context.Context, s *Session, first, ws bool, features
 	}
 
 	return mask, rw, err
+}
+
+// allowed reports whether the necessary bits of the feature are set and none of
+// its prohibited bits are set in the current session state.
+func (s *Session) allowed(feature StreamFeature) bool {
+	return s.state&feature.Necessary == feature.Necessary && s.state&feature.Prohibited == 0
 }
 
 type sfData struct {
